@@ -47,3 +47,28 @@ class Outer(nnx.Module):
 
     def __call__(self, x):
         return self.p(x) * 2.0
+
+
+import jax.numpy as jnp
+
+
+def leaky(slope):
+    def act(x):
+        return jnp.where(x > 0, x, slope * x)
+    return act
+
+
+@onnx_function(unique=True)
+class UniqueBlock(nnx.Module):
+    def __init__(self, act, scale=1.0):
+        self.linear = nnx.Linear(4, 4, rngs=nnx.Rngs(0))
+        self.act = act
+        self.scale = scale
+
+    def __call__(self, x):
+        return self.act(self.linear(x)) * self.scale
+
+
+@onnx_function
+def scaled(x, *, k=2.0):
+    return x * k
